@@ -160,3 +160,51 @@ def load_known():
         return {'findings': []}
     with open(KNOWN_FILE) as fh:
         return json.load(fh)
+
+
+class Collector(object):
+    """picklable subset of Ctx used inside worker processes"""
+
+    def __init__(self, prop):
+        self.prop = prop
+        self.rules = {}
+        self.findings = []
+        self.samples = []
+        self.distinct = set()
+        self.evaluations = 0
+        self.notes = []
+        self.extra = {}
+
+    def rule(self, rid, desc, floor=1):
+        self.rules.setdefault(rid, {'desc': desc, 'instances': 0, 'violations': 0, 'floor': floor})
+
+    def instance(self, rid, key=None, n=1):
+        self.rules[rid]['instances'] += n
+        self.evaluations += n
+        if key is not None:
+            self.distinct.add((rid, key))
+
+    def sample(self, obj):
+        if len(self.samples) < 4:
+            self.samples.append(obj)
+
+    def report(self, rule, func, construct, message, file=None, line=None, detail=None):
+        self.findings.append((rule, func, construct, message, file, line, detail))
+
+
+def merge_collector(ctx, col):
+    for rid, r in col.rules.items():
+        ctx.rule(rid, r['desc'], r['floor'])
+        ctx.rules[rid]['instances'] += r['instances']
+    ctx.evaluations += col.evaluations
+    ctx.distinct |= col.distinct
+    for s in col.samples:
+        ctx.sample(s)
+    for f in col.findings:
+        ctx.report(*f)
+    ctx.notes.extend(col.notes)
+    for k, v in col.extra.items():
+        if isinstance(v, (int, float)) and isinstance(ctx.extra.get(k), (int, float)):
+            ctx.extra[k] += v
+        else:
+            ctx.extra.setdefault(k, v)
